@@ -39,6 +39,13 @@ def lockOKb (σ : St) (t : Nat) : Bool :=
   | .f1 _ _ | .tdm => σ.wtfOwner.isNone
   | _ => true
 
+/-- `WLockOK`: the condvar's mutex and the consumers' list lock are mutual exclusion -/
+def wLockOKb (σ : St) (x T : Nat) : Bool :=
+  match (σ.th x).pc with
+  | .nb1 _ | .wl _ _ => σ.wlockOwner.isNone
+  | .nf false _ => (List.range T).all fun u => match (σ.th u).pc with | .c2 _ _ .parked _ => false | _ => true
+  | _ => true
+
 /-- `EStepOK`, for threads below `T` -/
 def eStepOKb (σ : St) (x T : Nat) : Bool :=
   let ths := (List.range T).map fun t => (t, σ.th t)
@@ -72,6 +79,7 @@ def eRetOKb (σ : St) (t T : Nat) : Bool :=
 def hypRun (σ : St) (t T : Nat) : List String :=
   (if modeOKb σ T then [] else ["ModeOK"]) ++
   (if lockOKb σ t then [] else ["LockOK"]) ++
+  (if wLockOKb σ t T then [] else ["WLockOK"]) ++
   (if eStepOKb σ t T then [] else ["EStepOK"])
 
 end MQ
